@@ -250,6 +250,8 @@ where
         let now = Instant::now();
 
         let hash = self.inner.hasher.hash_one(key);
+        // A version of the key that still sits in the write queue must not be served by later lookups.
+        self.inner.keeper.remove(hash, key);
         self.inner.engine.delete(hash);
 
         self.inner.metrics.storage_delete.increase(1);
